@@ -259,6 +259,21 @@ def run(chk):
     except Exception as ex:
         chk.violation(f'total#never fails:{type(ex).__name__}', f"equivalent_patterns(\"[a:x = 1 AND b:x = 1]\", itself) raised {type(ex).__name__}: {ex}", {})
 
+    # ---- set literals mixing constant KINDS whose payloads compare equal in Python (1 / true / 1.0, 0 / false, 'ab' / h'ab' / b'YWI='): members are distinct values
+    KIND_SETS = [("[a:b IN (1, true)]", "[a:b IN (1)]"), ("[a:b IN (1, true)]", "[a:b IN (true)]"), ("[a:b IN (0, false)]", "[a:b IN (0)]"), ("[a:b IN (0, false)]", "[a:b IN (false)]"),
+                 ("[a:b IN ('ab', h'ab')]", "[a:b IN ('ab')]"), ("[a:b IN ('ab', h'ab')]", "[a:b IN (h'ab')]"), ("[a:b NOT IN (1, true)]", "[a:b NOT IN (1)]"), ("[a:b IN (1.0, true)]", "[a:b IN (1.0)]"),
+                 ("[a:b IN ('1', 1)]", "[a:b IN (1)]"), ("[a:b IN (1, true, 2)]", "[a:b IN (1, 2)]")]
+    KIND_SAME = [("[a:b IN (1, true)]", "[a:b IN (true, 1)]"), ("[a:b IN (0, false, 2)]", "[a:b IN (2, false, 0)]"), ("[a:b IN ('ab', h'ab')]", "[a:b IN (h'ab', 'ab')]")]          # (removal of repeated members is not among the documented rewrites: not demanded)
+    def check_kind(case):
+        a, b, same = case
+        try: e = equivalent_patterns(a, b); e2 = equivalent_patterns(b, a)
+        except Exception as ex: return (f'total#never fails:{type(ex).__name__}', f'equivalent_patterns({a!r}, {b!r}) raised {ex!r}', {})
+        if e != e2: return ('relation#symmetric', f'{a} ~ {b} is {e} but the converse is {e2}', {})
+        if same and not e: return ('laws#documented rewrite recognised:order-insensitive set literals (members of several kinds)', f'{a} and {b} are not reported equivalent', {})
+        if not same and e: return ('sound#reported equivalent but semantics differ:set literal members of different kinds', f'{a} ~ {b} reported equivalent, but a value of the kind only one of them lists matches only that one', {'p': a, 'q': b})
+    chk.bounded('set literals mixing constant kinds with equal payloads', [(a, b, False) for a, b in KIND_SETS] + [(a, b, True) for a, b in KIND_SAME], check_kind, classify=lambda c: c,
+                bound=f'{len(KIND_SETS)} pairs that differ in a member of another kind, {len(KIND_SAME)} reorderings')
+
     # ---- cascades: documented rewrites applied one after the other (a simplification that only becomes possible after another one)
     CASCADES = [
         ("(([a:b = 1] OR [a:b = 1]) WITHIN 5 SECONDS) OR ([a:b = 1] WITHIN 5 SECONDS)", "[a:b = 1] WITHIN 5 SECONDS", 'idempotence under a qualifier, then idempotence'),
@@ -354,11 +369,17 @@ def run(chk):
     chk.bounded('iter_lex_cmp == lexicographic three-way comparison', list(lex_cases()), check_lex, classify=lambda c: (len(c[0]), len(c[1]), c[0][:1], c[1][:1]),
                 bound='all pairs of sequences of length <= 3 over {0, 1, 2} and over {"", "a", "b"} (falsy elements included), lists and one-shot iterators')
 
+    # the collection also holds every law / cascade / several-object-type pattern (equivalents whose sets of object types differ, OR chains of three comparisons over two types reordered)
+    FIND_EXTRA = [x for pair in LAWS + CASCADES for x in pair[:2]] + MIXED + ["[a:b = 1] OR ([a:b = 1] AND [c:d = 2])", "[a:b = 1]", "([a:b = 1] OR ([a:b = 1] AND [c:d = 2])) WITHIN 5 SECONDS", "[a:b = 1] WITHIN 5 SECONDS",
+                  "[a:x = 1 OR b:y = 2 OR c:z = 3]", "[c:z = 3 OR b:y = 2 OR a:x = 1]", "[b:y = 2 OR a:x = 1 OR c:z = 3]", "[a:x = 1 OR b:y = 2]", "[a:x = 1]"]
+    FIND_EXTRA = list(dict.fromkeys(FIND_EXTRA))
+
     def find_cases():
         for q in sample[:25]: yield q
+        for q in FIND_EXTRA: yield q
 
     def check_find(q):
-        coll = sample[:60]
+        coll = sample[:60] + FIND_EXTRA
         got = list(find_equivalent_patterns(q, coll)); want = [p for p in coll if equivalent_patterns(q, p)]
         if got != want: return ('find#returns exactly the pairwise equivalent members', f'find_equivalent_patterns({q}) = {got[:3]}..., pairwise filter {want[:3]}...', {})
-    chk.bounded('find_equivalent_patterns == filter(equivalent_patterns)', list(find_cases()), check_find, classify=lambda q: q, bound='25 queries against a 60-pattern collection')
+    chk.bounded('find_equivalent_patterns == filter(equivalent_patterns)', list(find_cases()), check_find, classify=lambda q: q, bound=f'{25 + len(FIND_EXTRA)} queries against a {60 + len(FIND_EXTRA)}-pattern collection (generated patterns, every law / cascade instance, patterns over several object types)')
